@@ -5,6 +5,7 @@
 (* on a stream far larger than the model-checked bounds:                   *)
 (*   frames : <<[type, plen, hdr (bytes the device-side encoder produced)]>> *)
 (*   events : <<[n, nd, exact, err, closed]>>  one per data_received call    *)
+(*   raise  : numbers of the packets whose consumer raises (after taking it) *)
 (* The abstract meaning of PlainHelper.tla (frames complete within the     *)
 (* received prefix) decides every event; the header bytes are checked      *)
 (* against Wire.tla, which ties the harness's encoder to the documented    *)
@@ -39,7 +40,11 @@ Step ==
   /\ l <= Len(T.events)
   /\ LET e == T.events[l]
          r == rcvd + e.n
-         k == CompleteFrom(T.frames, nd, EndOfT(T.frames, nd), r)
+         kAll == CompleteFrom(T.frames, nd, EndOfT(T.frames, nd), r)
+         \* the consumer fails on the packets numbered in T.raise (after taking them): the call ends there; the
+         \* complete frames behind are handed over by the following calls - each once, nothing lost
+         Stops == {T.raise[i] : i \in 1..Len(T.raise)} \cap (nd + 1)..kAll
+         k == IF Stops = {} THEN kAll ELSE CHOOSE x \in Stops : \A y \in Stops : x <= y
          bad == NGoodT(T.frames) < Len(T.frames) /\ k = NGoodT(T.frames)
                   /\ r > EndOfT(T.frames, k)
          experr == IF ~bad THEN "none"
